@@ -165,10 +165,8 @@ func (g *gemExtension) init(input string) error {
 		elements = append(elements, gemElement{str: str})
 	}
 	// Trim trailing zeros.
-	for i := len(elements) - 1; i >= 0; i-- {
-		if elements[i].str == "0" {
-			elements = elements[:i]
-		}
+	for i := len(elements) - 1; i >= 0 && elements[i].str == "0"; i-- {
+		elements = elements[:i]
 	}
 	// Integers for numbers.
 	for i, e := range elements {
